@@ -7,6 +7,7 @@ import CCVerif.Lemmas.CheckerSoundTop
 import CCVerif.Lemmas.CheckerTotal
 import CCVerif.Model.CheckerPinned
 import CCVerif.Model.CheckerPinnedRec
+import CCVerif.Model.CheckerPinnedRec2
 import CCVerif.Spec.VClass
 import CCVerif.Lemmas.VClassSpec
 import CCVerif.Lemmas.VClassSound
@@ -510,8 +511,8 @@ reported argument list: names AND types), `X1:==`, `D1:==e`, `F1:==[…] e`, `S1
 expressions are built from: the binder-free core of `check_sound_partial`, bound variables,
 radicals, ×, tuples, enumerations / bool, the quantifiers ∀ ∃ with a variable, a (nested) tuple
 pattern or an enumerated declaration, D{p∈S | P}, I{e | p:∈S; p:=e; cond}, R{p:=e | step},
-R{p:=e | cond | step} (type deduction by `StepReach` to a fixed point, result = merge with the type of
-the initial value), Fi, and calls of term-functions / predicates with template instantiation
+R{p:=e | cond | step} (the variable is typed by the join of the initial value and the step: join chain
+`StepReach` from `type(step) ⊔ type(e)` to a type the step stays within; condition typed with it), Fi, and calls of term-functions / predicates with template instantiation
 (`CompareTemplated` over mangled radicals = `matchArg` + `solve` + `instantiate`, Lemmas/Templates),
 nested arbitrarily. Scopes (`StartScope` / `EndScope` / `ClearLocalVariables`, re-declaration after the
 end of a scope, shadowing = error) are related to the lexical environment of the typing relation.
@@ -648,26 +649,40 @@ private theorem ty_ne_coll (t : Ty) : t ≠ .coll t := by
   have := congrArg sizeOf h
   simp at this
 
-private theorem no_fix (Γ : Ctx) (Δ : Env) (τ : Ty) (lo hi l2 h2 : Int) (d : TokData)
-    (h : HasType Γ (Δ.add "x" τ) (.node .NT_ENUMERATION d lo hi [loc "x" l2 h2]) (.ty τ))
+private theorem merge_coll_self_ne (te : TraitEnv) : ∀ τ : Ty, merge te (.coll τ) τ ≠ some τ
+  | .base b => by simp only [merge]; split <;> simp
+  | .tuple _ => by simp [merge]
+  | .coll c => by
+    simp only [merge]
+    cases h : merge te (.coll c) c with
+    | none => simp
+    | some x =>
+      simp only [Option.some.injEq, Ty.coll.injEq, ne_eq]
+      intro hx; subst hx
+      exact merge_coll_self_ne te x h
+
+private theorem no_fix (Γ : Ctx) (Δ : Env) (τ tτ : Ty) (lo hi l2 h2 : Int) (d : TokData)
+    (h : HasType Γ (Δ.add "x" τ) (.node .NT_ENUMERATION d lo hi [loc "x" l2 h2]) (.ty tτ))
+    (hm : merge Γ.traits tτ τ = some τ)
     (hx : Δ.has "x" = false) : False := by
   cases h with
   | global a _ _ => rcases a with h | h | h <;> cases h
-  | enumeration _ hts hm =>
+  | enumeration _ hts hmm =>
     cases hts with
     | cons hk hrest =>
       cases hrest
-      simp only [mergeAll, Option.some.injEq] at hm
-      subst hm
+      simp only [mergeAll, Option.some.injEq] at hmm
+      subst hmm
       cases hk with
       | global a _ _ => rcases a with h | h | h <;> cases h
       | local_ hg =>
         rw [Env.get?_add _ _ _ hx] at hg
         simp at hg
-        exact ty_ne_coll _ hg.symm
+        subst hg
+        exact merge_coll_self_ne _ _ hm
 
-/-- the declarative system gives `R{x := ∅ | {x}}` no type in any context: the rule needs a type τ
-with `x : τ ⊢ {x} : τ`, and `{x} : ℬ(τ)` -/
+/-- the declarative system gives `R{x := ∅ | {x}}` no type in any context: the rule needs a type τ of
+the variable such that the step, typed with `x : τ`, stays within τ — and `{x} : ℬ(τ)` never does -/
 theorem recursion_diverge_untypable (Γ : Ctx) (τ : ExprTy) (args : List (String × Ty)) :
     ¬ HasTopType Γ exRecDiverge τ args := by
   intro h
@@ -676,9 +691,9 @@ theorem recursion_diverge_untypable (Γ : Ctx) (τ : ExprTy) (args : List (Strin
     cases ht with
     | quant a _ _ _ _ => rcases a with h | h <;> cases h
     | enumeration a _ _ => rcases a with h | h <;> cases h
-    | recShort _ _ _ _ _ hb hs _ =>
+    | recShort _ _ _ _ _ _ hb hs hm =>
       cases hb with
-      | var hx => exact no_fix _ _ _ _ _ _ _ _ hs hx
+      | var hx => exact no_fix _ _ _ _ _ _ _ _ _ hs hm hx
 
 example : WfTop ctxK [] exRecDiverge :=
   .ofDef (.expr (Or.inl (.sRecShort .dLocal .sEmpty (.sEnum (fun k hk => by
@@ -695,6 +710,114 @@ theorem pinned_recursion_diverge_counterexample :
 
 /-- the repaired code rejects it with `typesNotEqual` at the step expression -/
 example : (check ctxK exRecDiverge).out = .fail ∧ (check ctxK exRecDiverge).errs = [(0x8803, 11)] := by
+  decide +kernel
+
+/-! ### recursion whose condition uses the variable at a type the initial value does not have
+(defect K11, repaired in /repo 374179a) -/
+
+/-- `R{a := X1 | ∀x∈a pr1(x)=x | ∅}` -/
+def exRecCond : Ast :=
+  .node .NT_RECURSIVE_FULL .none 0 28 [loc "a" 2 3, glob "X1" 5 7,
+    .node .FORALL .none 10 24 [loc "x" 11 12, loc "a" 13 14,
+      .node .EQUAL .none 15 24 [.node .SMALLPR (.tuple [1]) 15 22 [loc "x" 19 20], loc "x" 23 24]],
+    .node .LIT_EMPTYSET .none 27 28 []]
+
+private theorem emptyset_type {Γ : Ctx} {Δ : Env} {d : TokData} {lo hi : Int} {t : Ty}
+    (h : HasType Γ Δ (.node .LIT_EMPTYSET d lo hi []) (.ty t)) : t = Ty.emptySet := by
+  cases h with
+  | global a _ _ => rcases a with h | h | h <;> cases h
+  | emptyset => rfl
+
+private theorem merge_empty_X1 (te : TraitEnv) :
+    merge te Ty.emptySet (.coll (.base "X1")) = some (.coll (.base "X1")) := by
+  simp [merge, Ty.emptySet, Ty.R0, Ty.anyName]
+
+/-- with the step `∅` the chain of type deduction stays at ℬ(X1) (induction over the chain; the other
+motives of the mutual recursor are trivial) -/
+private theorem reach_emptyStep {Γ : Ctx} {d : TokData} {lo hi : Int} {Δ : Env} {p step : Ast} {σ τ : Ty}
+    (h : StepReach Γ Δ p step σ τ) :
+    step = .node .LIT_EMPTYSET d lo hi [] → σ = .coll (.base "X1") → τ = σ := by
+  apply StepReach.rec (motive_1 := fun _ _ _ _ => True) (motive_2 := fun _ _ _ _ => True)
+    (motive_3 := fun _ _ _ _ => True) (motive_4 := fun _ _ _ _ => True)
+    (motive_5 := fun _ _ step σ τ _ =>
+      step = .node .LIT_EMPTYSET d lo hi [] → σ = .coll (.base "X1") → τ = σ) (t := h)
+  any_goals (intros; trivial)
+  intro Δ Δσ p step σ σ' σ'' τ _ ht hm _ _ ih hs hσ
+  subst hs
+  have := emptyset_type ht; subst this; subst hσ
+  rw [merge_empty_X1] at hm; cases hm
+  exact ih rfl rfl
+
+/-- the declarative system gives `R{a := X1 | ∀x∈a pr1(x)=x | ∅}` no type: the variable holds the
+initial value `X1`, so its type is ℬ(X1) (the step `∅` stays within it), its elements are not tuples and
+`pr1(x)` has no type -/
+theorem recursion_condition_untypable (τ : ExprTy) (args : List (String × Ty)) :
+    ¬ HasTopType ctxK exRecCond τ args := by
+  intro h
+  cases h with
+  | expr _ _ _ ht =>
+    cases ht with
+    | enumeration a _ _ => rcases a with h | h <;> cases h
+    | recFull iA b0 iC _ hm0 sr bτ _ _ ic =>
+      cases iA with
+      | global _ _ hl =>
+        simp [ctxK, lookup, gX1] at hl; subst hl
+        cases b0 with
+        | var _ =>
+          have := emptyset_type iC; subst this
+          rw [merge_empty_X1] at hm0; cases hm0
+          have := reach_emptyStep sr rfl rfl; subst this
+          cases bτ with
+          | var ha =>
+            cases ic with
+            | quant _ hdom hdb hbind hbody =>
+              cases hdom with
+              | global a _ _ => rcases a with h | h | h <;> cases h
+              | local_ hg =>
+                rw [Env.get?_add _ _ _ ha] at hg
+                simp at hg; subst hg
+                cases hdb
+                cases hbind with
+                | var hxn =>
+                  cases hbody with
+                  | order a _ _ _ _ _ => rcases a with h | h | h | h <;> cases h
+                  | elem a _ _ _ _ => rcases a with h | h <;> cases h
+                  | subset a _ _ _ _ => rcases a with h | h | h <;> cases h
+                  | logbin a _ _ => rcases a with h | h | h | h <;> cases h
+                  | equal _ h1 _ _ =>
+                    cases h1 with
+                    | enumeration a _ _ => rcases a with h | h <;> cases h
+                    | smallpr _ hx _ _ =>
+                      cases hx with
+                      | global a _ _ => rcases a with h | h | h <;> cases h
+                      | local_ hg =>
+                        rw [Env.get?_add _ _ _ hxn] at hg
+                        simp at hg
+                    | smallprAny _ hx =>
+                      cases hx with
+                      | global a _ _ => rcases a with h | h | h <;> cases h
+                      | local_ hg =>
+                        rw [Env.get?_add _ _ _ hxn] at hg
+                        simp [Ty.R0, Ty.anyName] at hg
+
+example : WfTop ctxK [] exRecCond :=
+  .ofDef (.expr (Or.inl (.sRecFull .dLocal (.sGlobal (Or.inl rfl))
+    (.lQuant (Or.inl rfl) (.deOfD .dLocal) .sLocal
+      (.lPred (Or.inl rfl) (.sProj (Or.inr rfl) (by simp) .sLocal) .sLocal)) .sEmpty)))
+
+/-- K11 (pinned `ViRecursion`, Model/CheckerPinnedRec2.lean): the rounds of type deduction re-declared
+the variable with the type of the STEP alone, so the condition was analysed with `a : ℬ(R0)` (the type of
+the step `∅`) although `a` holds the initial value `X1`: `R{a := X1 | ∀x∈a pr1(x)=x | ∅}`, which has no
+type, was accepted with the typification ℬ(X1) (and its evaluation applied `pr1` to an element of X1) -/
+theorem pinned_recursion_condition_counterexample :
+    (checkPinnedRec2 ctxK exRecCond).out = .ok (.ty (.coll (.base "X1"))) ∧
+    (checkPinnedRec2 ctxK exRecCond).errs = [] ∧
+    ∀ τ args, ¬ HasTopType ctxK exRecCond τ args :=
+  ⟨by decide +kernel, by decide +kernel, fun τ args => recursion_condition_untypable τ args⟩
+
+/-- the repaired code declares `a : ℬ(X1)` (join of the initial value and the step) and rejects the
+condition with `invalidProjectionTuple` at the argument of `pr1` -/
+example : (check ctxK exRecCond).out = .fail ∧ (check ctxK exRecCond).errs = [(0x8811, 19)] := by
   decide +kernel
 
 /-! ### recursive terms and radicals in the fragment -/
